@@ -76,6 +76,30 @@ func (b *bb) fail(sig, what string, args []string, impl, other interface{}) {
 		Case: map[string]interface{}{"state": b.st.Name, "args": q(args)}, Impl: impl, Model: other})
 }
 
+// classify refines the signature of an invalid JSON document so that each defect class has its own.
+func (b *bb) classify(sig, cmd, raw string) string {
+	if sig != "json-invalid" {
+		return sig
+	}
+	if strings.HasPrefix(cmd, "eval") {
+		switch {
+		case strings.Contains(raw, "Unsupported lua type"):
+			return "json-invalid-script-unsupported-type"
+		case hasNonFiniteToken(raw):
+			return "json-invalid-script-nonfinite-number"
+		}
+		return "json-invalid-script-result"
+	}
+	if hasNonFiniteToken(raw) {
+		// F15 family: a NaN / Inf token printed as a JSON number
+		if b.st.NonFinite {
+			return "json-invalid-nonfinite-coordinate"
+		}
+		return "json-invalid-nonfinite-argument-" + cmd
+	}
+	return "json-invalid-" + cmd
+}
+
 func (b *bb) connect() error {
 	var err error
 	open := func(s *srv.Server, pre ...[]byte) (*rconn, error) {
@@ -176,10 +200,7 @@ func (b *bb) pair(args []string, count bool, setup bool) (jdoc, srv.Value) {
 		var sig, what string
 		jd, sig, what = checkJSONDoc(jv.Str)
 		if sig != "" {
-			if sig == "json-invalid" && b.st.NonFinite && hasNonFiniteToken(jv.Str) {
-				sig = "json-invalid-nonfinite-coordinate"
-			}
-			b.fail(sig, what+": "+trunc(jv.Str, 300), args, jv.Str, nil)
+			b.fail(b.classify(sig, cmd, jv.Str), what+": "+trunc(jv.Str, 300), args, jv.Str, nil)
 		} else {
 			jok = true
 		}
@@ -218,6 +239,9 @@ func (b *bb) pair(args []string, count bool, setup bool) (jdoc, srv.Value) {
 	if jok {
 		if why := agree(cmd, args, jd, rv, b.st); why != "" {
 			sig := "modes-disagree-" + cmd
+			if b.st.NonFinite && (hasNonFiniteToken(rv.String()) || strings.Contains(jd.Raw, "null")) {
+				sig = "modes-disagree-nonfinite-coordinate"
+			}
 			b.fail(sig, "JSON and RESP replies convey different results: "+why, args, trunc(jd.Raw, 500), trunc(rv.String(), 500))
 		}
 	}
@@ -244,15 +268,12 @@ func (b *bb) others(args []string, jd jdoc, rv srv.Value) {
 	cmpJSON := func(tr, body string) {
 		d, sig, what := checkJSONDoc(body)
 		if sig != "" {
-			if sig == "json-invalid" && b.st.NonFinite && hasNonFiniteToken(body) {
-				sig = "json-invalid-nonfinite-coordinate"
-			}
-			b.fail(sig, tr+": "+what+": "+trunc(body, 300), args, body, nil)
+			b.fail(b.classify(sig, strings.ToLower(args[0]), body), tr+": "+what+": "+trunc(body, 300), args, body, nil)
 			return
 		}
 		b.r.Count(b.st.Name+"|"+tr+"|"+q(args), false)
 		b.r.Dist("transport:" + tr)
-		if jd.M == nil {
+		if jd.M == nil || volatileCmd(args) {
 			return
 		}
 		if a, c := stripElapsed(d), stripElapsed(jd); a != c {
